@@ -247,6 +247,28 @@ Section Meaning.
        end.
 End Meaning.
 
+(* ---- spacing erasure: two surface inputs differ only in their spacing annotations iff their
+   erasures are equal; the erasure itself is the input written without any space (C09) ---- *)
+Fixpoint erase_t (t : sterm) : sterm :=
+  match t with
+  | SAtom a n => SAtom a n
+  | SSet e _ _ items _ => SSet e 0 (fun _ => (O, O)) (map erase_t items) 0
+  | SComp a _ _ items _ => SComp a 0 (fun _ => (O, O)) (map erase_t items) 0
+  | SStmt a _ _ _ _ s p => SStmt a 0 0 0 0 (erase_t s) (erase_t p)
+  end.
+Definition erase_nums (n : snums) : snums :=
+  {| nl_sp0 := 0; nl_gaps := fun _ => (O, O); nl_texts := nl_texts n; nl_sp1 := 0 |}.
+Definition erase_stamp (x : sstamp) : sstamp :=
+  {| ss_arm := ss_arm x; ss_sp0 := 0; ss_sp1 := 0; ss_int := ss_int x; ss_sp2 := 0 |}.
+Definition erase (s : snarsese) : snarsese :=
+  {| sn_lead := 0;
+     sn_budget := option_map (fun x => (erase_nums (fst x), O)) (sn_budget s);
+     sn_term := erase_t (sn_term s);
+     sn_punct := option_map (fun x => (O, snd x)) (sn_punct s);
+     sn_stamp := option_map (fun x => (O, erase_stamp (snd x))) (sn_stamp s);
+     sn_truth := option_map (fun x => (O, erase_nums (snd x))) (sn_truth s);
+     sn_trail := 0 |}.
+
 (* ---- canonical surface inputs: what the formatter prints ---- *)
 Definition spunct_eqb (a b : punct) : bool :=
   match a, b with
@@ -316,10 +338,11 @@ Section Canon.
   (* the formatter's keywords are the parser's: a finite check on the regenerated tables *)
   Definition fmt_tables_ok : bool :=
     str_eqb (space_format_terms E) (sp E kt) && str_eqb (space_format_items E) (sp E ki)
-    && forallb (fun p => str_eqb (punct_kw E (punct_index p)) (fmt_punct E p)
+    && forallb (fun p => str_eqb (punct_kw E (punct_index p)) (fmt_punct E p) && nonempty (fmt_punct E p)
                          && match opunct (punct_index p) with Some q => spunct_eqb q p | None => false end)
                [Judgement; Goal; Question; Quest]
     && forallb (fun k => match stamp_kind (stamp_index k) with Some k' => sarm_eqb k' k | None => false end
-                         && str_eqb (stamp_marker E (stamp_index k)) (stamp_fmt_kw k))
-               [SAPast; SAPresent; SAFuture; SAFixed].
+                         && str_eqb (stamp_marker E (stamp_index k)) (stamp_fmt_kw k) && nonempty (stamp_fmt_kw k))
+               [SAPast; SAPresent; SAFuture; SAFixed]
+    && nonempty (sentence_truth_brackets_0 E).
 End Canon.
